@@ -357,6 +357,9 @@ def rule_stale_copies(ctx, rule='R10.10'):
 
 
 def run(ctx):
+    from . import edges
+    edges.rule_sentinel_before_use(ctx, 'R10.12')    # SEI caches its vertical constants for the frequency in use
+    edges.rule_cached_count_identity(ctx, 'R10.13')
     from . import pyrules
     pyrules.rule_internal_flags(ctx, 'R10.11')     # re-selecting the integrator in use does not disturb the exact integer state
     rule_stale_copies(ctx)
